@@ -524,6 +524,11 @@ class XsdAttributeGroup(
                     assert isinstance(base_attr, XsdAnyAttribute), "invalid base attribute"
 
                     if self.derivation == 'extension':
+                        if attr.parent is not self:
+                            # The wildcard of a referenced attribute group
+                            # must not be altered: extend a copy of it.
+                            attr = attributes[None] = copy(attr)
+                            attr.parent = self
                         try:
                             attr.union(base_attr)
                         except ValueError as err:
